@@ -163,7 +163,8 @@ def outcome_case(run, idx, cfgspec, runs, seed):
     override = kind.endswith("-override")
     kind = kind.replace("-override", "")
     names = make_names("str", d)
-    model = Models("multi" if kind in ("sage", "batch") else "scalar", names, exact=True)
+    # (every other multi-label game uses a model whose LABEL SET depends on the input: a missing label counts as 0 in a mean)
+    model = Models(("grow" if idx % 2 == 1 else "multi") if kind in ("sage", "batch") else "scalar", names, exact=True)
     loss = Losses("hash", exact=True)
     rows = [{f: 1000 * (t + 1) + j for j, f in enumerate(names)} for t in range(m)]
     ys = [t - 1 for t in range(m)]
@@ -763,7 +764,8 @@ def exact_case(run, idx, cfgspec, seed):
     override = kind.endswith("-override")
     kind = kind.replace("-override", "")
     names = make_names("str", d)
-    model = Models("multi" if kind in ("sage", "batch") else "scalar", names, exact=True)
+    # (every other multi-label game uses a model whose LABEL SET depends on the input: a missing label counts as 0 in a mean)
+    model = Models(("grow" if idx % 2 == 1 else "multi") if kind in ("sage", "batch") else "scalar", names, exact=True)
     loss = Losses("hash", exact=True)
     rows = [{f: 1000 * (t + 1) + j for j, f in enumerate(names)} for t in range(m)]
     ys = [t - 1 for t in range(m)]
